@@ -1579,7 +1579,13 @@ theorem checkCapabilityS_eq {st : St} (hi : Inv st) (h cap : Str) (fl : Flags) :
   have hag := getUserId_agrees hi.recs hi.cache h
   have hfr := getUserId_frame st h
   have hdf := getUserId_db_frame st h
+  by_cases hh : isUserHostmask h = true
+  case neg =>
+    have hh' : isUserHostmask h = false := by simpa using hh
+    unfold checkCapabilityS recogniseS Db.checkCapability Db.recognise
+    simp [hh']
   unfold checkCapabilityS recogniseS getUser Db.checkCapability Db.recognise
+  simp only [hh, Bool.not_true, Bool.false_eq_true, if_false]
   cases hres : (getUserId st h).2 with
   | ok id =>
     have hdb := getUserId_ok_db hres
